@@ -205,6 +205,17 @@ let run_pair_pred toks =
           | Some i, _ -> Printf.sprintf "FAIL %s step=%s reader=b" name (string_of_z i)
           | None, Some i -> Printf.sprintf "FAIL %s step=%s reader=a" name (string_of_z i)
           | None, None -> "FAIL " ^ name)
+     | "c02_pair_settled_ok" ->
+       (* died = some poll observation reports Ready with an error (token P:E...) *)
+       let died = List.exists (fun t ->
+           let n = String.length t in
+           let rec has i = i + 3 < n && ((t.[i] = ':' && t.[i+1] = 'P' && t.[i+2] = ':' && t.[i+3] = 'E') || has (i + 1)) in
+           has 0) obs in
+       if c02_pair_settled_ok died steps then "OK"
+       else if died then "FAIL c02_pair_settled_ok (an endpoint gave up although the network delivers)"
+       else Printf.sprintf "FAIL c02_pair_settled_ok (written %s/%s read %s/%s)"
+           (string_of_z (wrote_total SA steps)) (string_of_z (wrote_total SB steps))
+           (string_of_z (read_final SB steps)) (string_of_z (read_final SA steps))
      | "c01_kf1_class" -> if c01_kf1_class evs then "OK" else "FAIL c01_kf1_class"
      | "c01_d17_class" -> if c01_d17_class evs then "OK" else "FAIL c01_d17_class"
      | _ -> failwith ("pair_pred: unknown predicate " ^ name))
